@@ -425,6 +425,6 @@ REQUIRED_STRATA = {"all": ["strict:mut:misspell", "strict:mut:truncate", "strict
 
 PARTS = {
     "totality": {"runner": runner_totality, "replay": fuzzrun.replay_fuzz},
-    "strict": {"strategy": spec_strict, "check": check_strict, "examples": {"quick": 1600, "thorough": 30000}, "sample": view},
-    "layout": {"strategy": spec_layout, "check": check_layout, "examples": {"quick": 1200, "thorough": 20000}, "sample": view},
+    "strict": {"strategy": spec_strict, "check": check_strict, "examples": {"quick": 3200, "thorough": 30000}, "sample": view},
+    "layout": {"strategy": spec_layout, "check": check_layout, "examples": {"quick": 2400, "thorough": 20000}, "sample": view},
 }
